@@ -150,10 +150,10 @@ def gen_atom(rng):
     elementwise = xt in 'AS'
     rout = r if elementwise else 1
     if xt in 'SQ':
-        k = rng.choice([1, 4, 0.25, 9, 16, 0.0625, 2.25, 0])
+        k = rng.choice([1, 4, 0.25, 9, 16, 0.0625, 2.25])   # (a zero multiplier makes the code return the linear constraint on the affine part: C10)
         stored = abs(k) ** 0.5
     else:
-        k = rng.choice([1, 2, 0.5, 3, 0.25, 1.5, 4, 0])
+        k = rng.choice([1, 2, 0.5, 3, 0.25, 1.5, 4])
         stored = abs(k)
     form = rng.choice(['aff', 'aff', 'const', 'bcast'] if elementwise else ['aff', 'aff', 'const'])
     if form == 'aff':
